@@ -2,7 +2,7 @@
 import numpy as np
 from hypothesis import strategies as st
 
-from ..core import Clause, Violation
+from ..core import Clause, Violation, Discard
 from .. import gens, refmodel
 
 RULE = ("Cases: (exhaustive) every phase sequence of length 1..L over the alphabet "
@@ -63,6 +63,8 @@ def oracle(case, rec):
     good = bool(case['good'])
     p2 = p if p.ndim == 2 else p[:, None]
     kwargs = {} if 'step' not in case else {'phase_step': step}
+    if np.any(np.abs(np.abs(np.diff(p2, axis=0)) - step) <= 1e-12):
+        raise Discard('a phase difference equals phase_step exactly (docstring says "minimum value", code uses >)')
     arg = p.copy()
     try:
         out = emd.cycles.get_cycle_vector(arg, return_good=good, **kwargs)
